@@ -4,6 +4,7 @@ from lib import tables
 from .sampling import Sampling, PAR_EXTEND
 from .common import Recorder
 
+INLINE = True      # crate-local helpers the rules do not know by name are inlined into their callers (lib/inline.py)
 EXPLANATION = (
     "Necessary structure of the counting argument. R03.1 the early return on max_time == 0 || !has_samples() dominates "
     "every broadcast; has_samples() compares both sample_count and sample_size with Some(0). R03.2 in test mode the "
